@@ -114,7 +114,7 @@ def gen_nested_case(rng, prop="C03"):
         # open the next level (or work) on the first invocation only
         nxt = [4, opener + 1, 0, opt(rng.choice([None, 100 + d]))]
         body.append([9, 1, [nxt], []])
-        if prop == "C10" and rng.random() < 0.5:
+        if prop == "C10" and rng.random() < 0.7:
             body.append([9, 1, [[6, [rng.choice([1, 2])]]], []])
         if d > 0:
             body.append([9, 1, [[5]], []] if rng.random() < 0.85 else [5])
@@ -131,6 +131,9 @@ def gen_nested_case(rng, prop="C03"):
     bodies.append(inner); setup.append([8, 10 + D, hid, 9]); hid += 1
     # plain workers for classes 1, 2
     w1 = [[10, 1]] + ([[9, 2, [[0, 2, rng.choice(PRIOS), opt(rng.choice([None, 100, 101]))]], []]] if rng.random() < 0.6 else [])
+    if prop == "C10" and rng.random() < 0.6:
+        # a worker that itself waits for the other class: nested waiters released by a dispatch inside the nested call
+        w1.append([9, 2, [[0, 2, 0, []], [6, [2]]], []])
     w2 = [[10, 2]] + ([[9, 1, [[1]], []]] if rng.random() < 0.3 else [])
     bodies += [w1, w2]
     setup += [[8, 1, hid, 1], [8, 2, hid + 1, 2]]
